@@ -564,6 +564,23 @@ theorem reorderToPairsC_acc (ext : Nat → Nat) (c : Choice) (hc : c.Valid) :
     intro _ log1 m1 h1
     exact reorderToPairsC_acc ext c hc rest log1 m1 h1
 
+/-- the public `swap(x, y)` -/
+theorem swapPublicC_acc (ext : Nat → Nat) (c : Choice) (hc : c.Valid) (m : Mgr) (h : ReorderInv ext m)
+    (xa ya : VarOrLevel) (log : List SchedItem) :
+    AccC ext (swapPublicC c xa ya log m) log (swap xa ya false) m := by
+  obtain ⟨mg, hg, hRg, _⟩ := gc_keepS ext m h
+  have hgs : mg.sched = m.sched := by
+    have := collectGarbage_sn none m.sched m
+    rw [hg] at this
+    have e : setS m.sched m = m := rfl
+    rw [e, hg] at this
+    exact (congrArg (fun p => p.2.sched) this)
+  refine AccC.of_eq (F := collectGarbage none >>= fun _ => swap xa ya true) ?_ rfl
+    (fun s => swap_public_eq xa ya _)
+  unfold swapPublicC
+  refine AccC.bind_sn _ (collectGarbage_sn none) hg hgs ?_
+  exact swapC_acc ext c hc mg hRg xa ya log
+
 /-! ### what an accepted run gives; totality of sifting under every valid choice -/
 
 /-- the schedule that a choice-driven run recorded, if it returned -/
